@@ -87,34 +87,12 @@ def holds (i : Input) (o : Output) : Bool := (clauses i o).all (·.2)
 /-! ## per schema row -/
 
 /-- Fields whose copying in or out the translator could not classify (`custom`) or that are deliberately
-neither loaded nor saved.  Each is exercised by the value sweeps of the correspondence run instead; the
-reason says why the simple kinds do not apply. -/
+neither loaded nor saved.  Since round 7 every parse/print setting (multiaddresses, peer lists, keys, secret,
+TLS files, enumeration, `cors_max_age`) has a kind of its own with theorems; what is left are the two legacy
+keys that are deliberately never read or written. -/
 def allowList : List (String × String × String) := [
   ("cluster", "id", "legacy key of the pre-identity.json format: neither loaded nor saved"),
-  ("cluster", "private_key", "legacy key of the pre-identity.json format: neither loaded nor saved (still tagged hidden)"),
-  ("cluster", "secret", "hex decoded / encoded (DecodeClusterSecret, EncodeProtectorKey)"),
-  ("cluster", "listen_multiaddress", "list of multiaddresses parsed in a loop"),
-  ("cluster", "peer_addresses", "list of multiaddresses parsed in a loop"),
-  ("raft", "init_peerset", "peer IDs decoded by api.StringsToPeers"),
-  ("crdt", "trusted_peers", "peer IDs decoded in a loop, \"*\" means trust all"),
-  ("restapi", "http_listen_multiaddress", "list of multiaddresses parsed in a loop"),
-  ("restapi", "ssl_cert_file", "pair of paths loaded into a tls.Config"),
-  ("restapi", "ssl_key_file", "pair of paths loaded into a tls.Config"),
-  ("restapi", "libp2p_listen_multiaddress", "list of multiaddresses parsed in a loop"),
-  ("restapi", "id", "peer ID decoded, must match the private key"),
-  ("restapi", "private_key", "base64 + crypto.UnmarshalPrivateKey"),
-  ("restapi", "cors_max_age", "\"\" rewritten to \"0s\" for compatibility before ParseDurations"),
-  ("ipfsproxy", "listen_multiaddress", "list of multiaddresses parsed in a loop"),
-  ("ipfsproxy", "node_multiaddress", "multiaddress parsed when non-empty"),
-  ("ipfsproxy", "extract_headers_extra", "copied when non-empty"),
-  ("ipfshttp", "node_multiaddress", "multiaddress parsed"),
-  ("disk", "metric_type", "enumeration decoded by a switch"),
-  ("metrics", "prometheus_endpoint", "multiaddress parsed"),
-  ("tracing", "jaeger_agent_endpoint", "multiaddress parsed"),
-  ("leveldb", "leveldb_options.compression", "converted to goleveldb.Compression inside the merged option struct"),
-  ("leveldb", "leveldb_options.strict", "converted to goleveldb.Strict inside the merged option struct"),
-  ("identity", "id", "peer ID decoded, must match the private key"),
-  ("identity", "private_key", "base64 + crypto.UnmarshalPrivateKey") ]
+  ("cluster", "private_key", "legacy key of the pre-identity.json format: neither loaded nor saved (still tagged hidden)") ]
 
 def allowed (f : Field) : Bool := allowList.any fun (s, p, _) => s == f.sec && p == f.path
 
@@ -136,6 +114,23 @@ def zeroExcused (t : Ty) : Bool :=
   match t with
   | .int | .uint | .float | .dur | .ptrfloat | .ptrint => true
   | _ => false
+
+/-! ## a whole Manager file with parts the Manager does not know
+
+"Reproduced exactly by saving and loading it again, no setting silently dropped": what the loader accepted is a
+fixpoint of save → load (`fix`); "the displayable form never contains the cluster secret, private keys or API
+credentials": nothing secret of the saved form occurs in it (`leak`), every hidden key shows the mask (`masked`). -/
+structure MgrObs where
+  res : String
+  fix : Bool
+  leak : Bool
+  masked : Bool
+  deriving Repr
+
+def mgrClauses (o : MgrObs) : List (String × Bool) :=
+  [ ("no_crash", o.res != "panic"),
+    ("roundtrip", o.res != "ok" || o.fix),
+    ("no_secret_leak", o.res != "ok" || (!o.leak && o.masked)) ]
 
 /-! ## the remote `source` setting of a full configuration (config.Manager)
 
